@@ -1,6 +1,6 @@
 """C04 -- see harness/pipeline.py (shared site-targeting harness)."""
-from harness import pipeline
+from harness import gccutil, pipeline
 
 PROPERTY = "C04"
 LEVEL = "model_checking"
-FAMILIES = pipeline.families(("C04",))
+FAMILIES = pipeline.families(("C04",)) + [gccutil.family(("C04",))]
